@@ -27,6 +27,7 @@ def run(model, rep, tier):
     rep.explanation = EXPLANATION
     A_ = rep.attempt
     A_(r1, model, rep)
+    A_(links_by_endpoint, model, rep)
     A_(r2, model, rep)
     A_(r3, model, rep)
     A_(r4, model, rep)
@@ -72,6 +73,41 @@ def r1(model, rep):
     rep.instance("R1", "diagram._diag one edge per link, legend only for heat diagrams", where, ok)
     if rows < 20:
         raise AnalysisError("_diag: only %d path pairs compared" % rows)
+
+
+EDGE_VIEWS = ("edge_list", "edge_indices", "edge_index_map", "weighted_edge_list", "get_edge_endpoints_by_index", "in_edges", "out_edges")
+
+
+def links_by_endpoint(model, rep):
+    """R1: the parent-child links are never filed in a mapping under ONE of their endpoints: a component with several
+    parents (PMux) or several childs would keep only the last link filed.  Looked for: a dict comprehension, or a keyed
+    store in a loop, over a view of the graph's edges whose key mentions exactly one of the two endpoint variables."""
+    rel = model.rel("diagram")
+    n = 0
+    ok = True
+    for mod, qn, fn in model.all_functions():
+        if mod != "diagram":
+            continue
+        for x in ast.walk(fn):
+            gens = []
+            if isinstance(x, ast.DictComp):
+                gens = [(g, x.key, x.lineno) for g in x.generators]
+            elif isinstance(x, ast.For):
+                for st in ast.walk(x):
+                    if isinstance(st, ast.Assign) and len(st.targets) == 1 and isinstance(st.targets[0], ast.Subscript) and isinstance(st.targets[0].value, ast.Name):
+                        gens.append((x, st.targets[0].slice, st.lineno))
+            for g, key, line in gens:
+                if not any(isinstance(c, ast.Attribute) and c.attr in EDGE_VIEWS for c in ast.walk(g.iter)):
+                    continue
+                if not (isinstance(g.target, ast.Tuple) and len(g.target.elts) in (2, 3) and all(isinstance(e, ast.Name) for e in g.target.elts[:2])):
+                    continue
+                n += 1
+                ends = {e.id for e in g.target.elts[:2]}
+                used = {y.id for y in ast.walk(key) if isinstance(y, ast.Name)} & ends
+                if len(used) == 1:
+                    ok = False
+                    rep.violation("R1", "diagram.%s" % qn, "%s:%d" % (rel, line), "the links are filed under one endpoint (`%s`): of several links sharing that endpoint (a mux with several inputs, a parent with several childs) only one is drawn" % ast.unparse(key), "links keyed by one endpoint in " + qn)
+    rep.instance("R1", "diagram: links are not filed under a single endpoint", rel + ":1", ok, "%d mapping(s) over the edge view" % n)
 
 
 def r2(model, rep):
